@@ -7,6 +7,7 @@ import (
 	"sort"
 
 	"github.com/z7zmey/php-parser/verifmc/core"
+	"github.com/z7zmey/php-parser/verifmc/drive"
 )
 
 var registry = map[string]*core.Check{}
@@ -14,6 +15,9 @@ var registry = map[string]*core.Check{}
 func register(c *core.Check) { registry[c.Prop] = c }
 
 func main() {
+	// small pool blocks from the start: the corpus keeps the scanner's tokens of every program, and a token
+	// pins the whole block it lives in (production blocks: 100 KB per program)
+	drive.SetBlockSize(smallBlock)
 	if len(os.Args) < 2 {
 		usage()
 	}
